@@ -533,9 +533,22 @@ tpt_msg_cbsend(tp_p tp, tpt_p src, uint32_t flags,
 		}
 		if (0 == tpt_msg_one_by_one_send_next__int(tp, src, msg_data))
 			return (0); /* OK, sheduled. */
+		/* No other thread accept message. */
+		if (0 == ((TP_BMSG_F_SELF_SKIP | TP_MSG_F_SELF_DIRECT) & flags)) {
+			/* Try shedule caller thread, like tpt_msg_one_by_one_proxy_cb(). */
+			msg_data->cur_thr_idx = threads_max;
+			msg_data->send_msg_cnt ++;
+			if (0 == tpt_msg_send(src, src, flags,
+			    tpt_msg_one_by_one_proxy_cb, msg_data))
+				return (0); /* OK, sheduled. */
+			msg_data->send_msg_cnt --;
+			msg_data->error_cnt ++;
+		}
+		send_msg_cnt = msg_data->send_msg_cnt;
+		tm_cnt = msg_data->error_cnt;
+		free(msg_data); /* Nobody will do this later. */
 		if (TP_MSG_F_SELF_DIRECT == ((TP_BMSG_F_SELF_SKIP | TP_MSG_F_SELF_DIRECT) & flags)) {
-			done_cb(src, msg_data->send_msg_cnt,
-			    msg_data->error_cnt, udata);
+			done_cb(src, send_msg_cnt, tm_cnt, udata);
 			return (0);
 		}
 		return (ESPIPE);
